@@ -40,14 +40,18 @@ RULE = (
     "digest, event-order digest) pairs.")
 ASSUMPTIONS = [
     "equality per handler: pickle = equal object; CSV = same table (columns and "
-    "values, NaN-aware, index ignored); NetCDF4 = xarray equals() (values, dims, "
-    "coords; integer variables may come back as float)",
-    "NetCDF payloads are flat (no pseudo groups): groups sharing a root "
-    "dimension already fail in the pinned suite (test_dimension_mapping)",
+    "values, NaN-aware, index ignored); NetCDF4 = xarray identical() (values, "
+    "dims, coords, attributes) and equal dtypes, for a catalogue of data sets "
+    "that survive xarray's own to_netcdf/open_dataset round trip unchanged",
+    "NetCDF pseudo groups only one level deep and on dimensions of their own: "
+    "groups inheriting a dimension already fail in the pinned suite "
+    "(test_dimension_mapping)",
     "target templates never map two selected files to one name and use only "
     "placeholders the source files carry",
-    "no faults are injected (the property states none); periods avoid file "
-    "boundaries (C01 covers those)",
+    "no I/O faults are injected (the property states none); the recorded "
+    "'faults' are pre-emptions of a per-file task inside the reader/writer or "
+    "right before a file-system call; periods avoid file boundaries (C01 covers "
+    "those)",
 ]
 COMPONENTS = {
     "real": ["typhon.files.fileset (write/__setitem__, read, collect, find, move, "
@@ -87,10 +91,18 @@ def setup():
 SIM = [None]      # the running simulation (reached by the pickled-by-name callbacks)
 
 
+PREEMPT = {}      # per run: scheduling decisions with a real choice, per site class
+
+
 def _yield(label):
     sim = SIM[0]
     if sim is not None and sim.me() is not None:
+        d0 = sim.stats["decisions_gt1"]
         sim.yield_(label)
+        if sim.stats["decisions_gt1"] > d0:
+            k = ("preempt_in_reader_writer" if label.startswith(("reader", "writer"))
+                 else "preempt_before_fs_call")
+            PREEMPT[k] = PREEMPT.get(k, 0) + 1
 
 
 def p_reader(file_info, tag=None):
@@ -175,6 +187,8 @@ def gen_workload(tape):
             o["dup_of"] = tape.choice(12, "dup_of") if tape.flag("dup", 1, 4) else None
             o["dup_days"] = tape.pick([0, 1, 0, -1], "dup_days")
             o["layout"] = tape.choice(2, "layout")     # overwrite may change the layout
+            # NetCDF: 0 the default data set, else one of the catalogue
+            o["ncv"] = tape.choice(NC_VARIANTS, "ncv") if tape.flag("ncvar", 1, 2) else 0
             o["serial"] = serial
             serial += 1
         elif op in ("move", "copy", "delete", "dry_delete", "collect", "find"):
@@ -228,7 +242,94 @@ def _sha(path):
         return hashlib.sha256(f.read()).hexdigest()
 
 
-def _payload(kind, serial, xr, layout=0):
+def _nc_variant(v, serial, xr):
+    """NetCDF data sets beyond the default one: every dtype the format has,
+    NaN/inf/NaT, packed (scale/offset/fill value) and time encodings,
+    attributes, scalars and several dimensions, strings, pseudo groups, empty
+    dimensions.  Each of them survives xarray's own to_netcdf/open_dataset
+    round trip unchanged (checked when the catalogue was written), so the
+    handler has to give back an identical data set."""
+    t = np.array(["2019-02-27T00:00:00", "2019-02-27T00:00:01.5",
+                  "2019-03-01T12:00:00"], dtype="M8[ns]") + np.timedelta64(serial, "s")
+    k = serial % 50
+    if v == 1:
+        ds = xr.Dataset({
+            "i8": ("time", np.array([k, -3, 127], dtype="int8")),
+            "i16": ("time", np.array([k, -300, 32767], dtype="int16")),
+            "i64": ("time", np.array([k, -2 ** 40, 2 ** 62], dtype="int64")),
+            "u8": ("time", np.array([k, 0, 255], dtype="uint8")),
+            "u16": ("time", np.array([k, 0, 65535], dtype="uint16")),
+            "u32": ("time", np.array([k, 0, 2 ** 32 - 1], dtype="uint32")),
+            "f32": ("time", np.array([k + 0.25, -1e30, 1e-30], dtype="float32")),
+            "flag": ("time", np.array([True, False, bool(k % 2)])),
+        }, coords={"time": t})
+    elif v == 2:
+        ds = xr.Dataset({
+            "f": ("time", np.array([np.nan, np.inf, -0.0]) + 0.0),
+            "g": ("time", np.array([k + 0.5, -np.inf, np.nan], dtype="float32")),
+            "obs": ("time", np.array([t[0], np.datetime64("NaT"), t[2]], dtype="M8[ns]")),
+            "lag": ("time", np.array([k, 2, 86400 * 3], dtype="m8[s]").astype("m8[ns]")),
+        }, coords={"time": t})
+    elif v == 3:
+        ds = xr.Dataset({
+            "packed": ("time", np.array([1.5 + k, 2.5, np.nan])),
+            "packed32": ("time", np.array([0.25 * k, -8.0, 100.75], dtype="float32")),
+        }, coords={"time": t})
+        ds["packed"].encoding = {"dtype": "int16", "scale_factor": 0.5,
+                                 "add_offset": 1.0, "_FillValue": -9999}
+        ds["packed32"].encoding = {"dtype": "int32", "scale_factor": np.float32(0.25),
+                                   "_FillValue": -2 ** 31}
+    elif v == 4:
+        ds = xr.Dataset({"obs": ("time", t + np.timedelta64(k, "m")),
+                         "x": ("time", [1.0 * k, 2.0, 3.0])}, coords={"time": t})
+        ds["obs"].encoding = {"units": "seconds since 2000-01-01", "dtype": "float64"}
+        ds["time"].encoding = {"units": "milliseconds since 1970-01-01", "dtype": "int64"}
+    elif v == 5:
+        ds = xr.Dataset({"v": ("time", [1.0 * k, 2.0, 3.0])}, coords={"time": t},
+                        attrs={"title": f"serial {serial}", "n": np.int32(k),
+                               "f": 1.5, "arr": np.array([1, 2, k], dtype="int64")})
+        ds["v"].attrs = {"units": "K", "valid": np.array([0.0, 1.0 + k]),
+                         "long_name": "a b/c"}
+        ds["time"].attrs = {"comment": "start of scan"}
+    elif v == 6:
+        ds = xr.Dataset({
+            "cube": (("time", "ch", "lev"), np.arange(12.0).reshape(3, 2, 2) + k),
+            "scalar": ((), 5.0 + k),
+            "iscalar": ((), np.int16(k)),
+            "byn": ("n", np.array([1.5, k], dtype="float32")),
+        }, coords={"time": t, "n": [7, 10], "ch": np.array([1, 2], dtype="int8")})
+    elif v == 7:
+        ds = xr.Dataset({
+            "name": ("time", np.array(["a", "bb", f"s{k}"], dtype=object)),
+            "code": ("time", np.array(["x", f"{k:03d}", ""])),
+            "z": ("time", [1.0 * k, 2.0, 3.0]),
+        }, coords={"time": t})
+        ds["z"].encoding = {"zlib": True, "complevel": 4}
+    elif v == 8:
+        ds = xr.Dataset({
+            # (one level only: a pseudo group that inherits a dimension
+            # cannot be read back - the pinned test_dimension_mapping fails on
+            # that already, see DESIGN.md section 11, observations)
+            # and only dimensions of their own: a group variable on a root
+            # dimension is unreadable once the root group was written first)
+            "g1/v": ("g1/m", [1.0 * k, 2.0, 3.0, 4.0]),
+            "g1/w": ("g1/m", np.array([k, 2, 3, 4], dtype="int32")),
+            "g2/own": ("g2/n", [0.5, 1.0 * k]),
+            "top": ("time", [k, 2, 3]),
+        }, coords={"time": t}, attrs={"serial": np.int64(serial)})
+    else:
+        ds = xr.Dataset({"v": ("time", np.array([], dtype="float64")),
+                         "k": ((), np.int64(k))},
+                        coords={"time": np.array([], dtype="M8[ns]")})
+    return ds
+
+
+NC_VARIANTS = 10
+
+
+def _payload(kind, serial, xr, layout=0, ncv=0):
+    if ncv and kind == "nc":
+        return _nc_variant(ncv, serial, xr)
     if layout and kind == "nc":
         # a different layout: fewer variables, other attributes
         t = np.array(["2019-02-27T00:00:00", "2019-02-27T06:00:00"],
@@ -279,7 +380,11 @@ def _equal(kind, a, b):
     try:
         if "index" in getattr(b, "dims", {}) and "time" not in getattr(b, "dims", {}):
             return _equal("csv", a, b)     # a CSV table converted to NetCDF
-        return bool(a.equals(b))
+        if not a.identical(b):
+            return False
+        return all(a[v].dtype == b[v].dtype or
+                   (a[v].dtype.kind in "OU" and b[v].dtype.kind in "OU")
+                   for v in b.variables)
     except Exception:  # noqa
         return False
 
@@ -431,7 +536,10 @@ class Run:
             if cov is None:
                 return
             payload = _payload(ms.kind, o["serial"], xr,
-                               o.get("layout", 0) if kind == "overwrite" else 0)
+                               o.get("layout", 0) if kind == "overwrite" else 0,
+                               o.get("ncv", 0))
+            if ms.kind == "nc" and o.get("ncv"):
+                self.sim.probe(f"netcdf_variant_{o['ncv']}")
             if kind == "overwrite" and o.get("layout"):
                 self.sim.probe("overwrite_with_other_layout")
             stored = payload
@@ -689,6 +797,7 @@ def run_one(tape, only=None):
     fsmod = _T["fsmod"]
     SimPoolBase.sim, SimPoolBase.registry = sim, []
     SIM[0] = sim
+    PREEMPT.clear()
     _FS_HOOK[0] = _yield
     outcome = {}
     import tempfile
@@ -746,6 +855,7 @@ def run_one(tape, only=None):
             uniq.append(v)
     res["violations"] = uniq
     res["probes"] = dict(sim.probes)
+    res["faults"] = dict(PREEMPT)
     res["nontrivial"] = run.state_changes >= 2 and run.selected_ops >= 1
     res["wdigest"] = digest_of(w)
     res["edigest"] = sim.digest()
